@@ -87,14 +87,20 @@ def _entity_names():
     for n in names:
         lower.setdefault(n.lower(), []).append(n)
     cased = sorted(n for group in lower.values() if len(group) > 1 for n in group)
-    return names, cased
+    cp = dict(name2codepoint)
+    cp["apos"] = 0x27                      # HTML5 / XML; the table of html.entities (HTML 4) lacks it
+    return names, cased, cp
 
 
-ENT_NAMES, ENT_CASED = _entity_names()
+ENT_NAMES, ENT_CASED, ENT_CP = _entity_names()
+
+
+ENT_SPECIAL = ["apos", "quot", "amp", "lt", "gt", "nbsp"]      # apos is the entry pycaption adds to the table itself
 
 
 def rand_entity(rng):
-    return ("e", rng.choice(ENT_CASED) if rng.random() < 0.6 else rng.choice(ENT_NAMES))
+    r = rng.random()
+    return ("e", rng.choice(ENT_CASED) if r < 0.5 else rng.choice(ENT_SPECIAL) if r < 0.7 else rng.choice(ENT_NAMES))
 
 
 def rand_wrap(rng):
@@ -182,7 +188,7 @@ def wire_items(items):
         elif k == "ts":
             out.append([6, it[1]])
         elif k == "e":
-            out.append([8, it[1]])
+            out.append([8, it[1], ENT_CP[it[1]]])
         else:
             out.append([7, bool(it[1]), it[2]])
     return out
@@ -220,7 +226,7 @@ def read_doc(fmt, doc):
     for lang in cs.get_languages():
         for c in cs.get_captions(lang):
             nodes = []
-            for n in c.nodes:
+            for n in (getattr(c, "nodes", None) or []):     # a reader may leave None / node-less captions behind
                 if n.type_ == 1:
                     nodes.append(("t", n.content))
                 elif n.type_ == 3:
@@ -487,6 +493,9 @@ def shape_of(fmt, items, content):
     kinds = [it[0] for it in items]
     if fmt in ("DFXP", "SAMI") and "w" in kinds:
         return "wrapped-text"
+    for a, b, c in zip(items, items[1:], items[2:]):
+        if a[0] == "c" and c[0] == "o" and b[0] == "t" and all(chr(x[0]).isspace() for x in b[1]):
+            return "space-between-inline-elements"
     if fmt == "SAMI" and "e" in kinds:
         return "sami-named-entity"
     if fmt == "SAMI" and any(it[0] == "t" and any(sp != 0 or c in (38, 60, 62) for c, sp in it[1]) for it in items):
@@ -519,11 +528,30 @@ def tokens_for(fmt):
                 [("t", [(65, 4)])], [("t", [(60, 1)])], [("t", [(62, 0)])], [("t", [(160, 1)])], [("t", [(39, 1)])],
                 [("w", 100)], [("w", 203)]]
         if fmt == "SAMI":
-            toks += [[("e", n)] for n in ("Eacute", "eacute", "Prime", "prime", "amp")]
+            toks += [[("e", n)] for n in ("Eacute", "eacute", "Prime", "apos", "amp")]
+        # whole inline elements as single tokens: adjacent elements separated only by a white-space text node
+        toks += [[("o", 0), T("Hello"), ("c", 0)], [("o", 1), T("world"), ("c", 1)]]
         return toks
     if fmt == "SRT":
         return [[T("a")], [T(" ")], [T("<i>")], [T("&amp;")], [T("1")], [T("-->")], [("br",)], [T("|")], [T("{y:i}")]]
     return [[T("a")], [T(" ")], [T("<i>")], [T("&amp;")], [T("{1}{2}")], [("br",)], [T("/")], [T("{y:i}")]]
+
+
+def inline_space_grid(fmt):
+    """two inline elements (or an element and text) separated only by a white-space text node on the same source
+    line, flat and nested: the separator is a word separator"""
+    T = lambda s: ("t", [(ord(ch), 0) for ch in s])    # noqa: E731
+    A = [("o", 0), T("Hello"), ("c", 0)]
+    B = [("o", 1), T("world"), ("c", 1)]
+    out = []
+    for sp in (" ", "  ", "\t", " \t "):
+        out.append(A + [T(sp)] + B)
+        out.append([T("Hello")] + [T(sp)] + B)
+        out.append(A + [T(sp)] + [T("world")])
+        out.append([("o", 2)] + A + [T(sp)] + B + [("c", 2)])
+        out.append([("o", 2)] + A + [("c", 2)] + [T(sp)] + [("o", 2)] + B + [("c", 2)])
+        out.append(A + [T(sp)] + B + [T(sp)] + A)
+    return out
 
 
 def valid_sequence(fmt, items):
@@ -583,6 +611,8 @@ def run(ctx):
             for combo in itertools.product(toks, repeat=L):
                 seqs.append(sum(combo, []))
         seqs = [s for s in seqs if valid_sequence(fmt, s)]
+        if fmt in ("DFXP", "SAMI"):
+            seqs = inline_space_grid(fmt) + seqs
         res["distribution"]["B_sequences_" + fmt] = len(seqs)
         # visible?
         disp = oracle_batch([(401, wire_items(s)) for s in seqs])
